@@ -211,6 +211,7 @@ type Tree struct {
 	LookupMiss  []uint32 `json:"miss,omitempty"`
 	LookupGhost []uint32 `json:"ghost,omitempty"`
 	ScanLeft    []uint32 `json:"scanl,omitempty"`
+	NoLookups   bool     `json:"nolookups,omitempty"`
 	Err         string   `json:"err,omitempty"`
 }
 
